@@ -160,3 +160,14 @@ Definition uconn_write (vers : N) (cbc : bool) (len : N) : N :=
     let m := 1 in            (* n, err := writeRecordLocked(b[:1]); m, b = 1, b[1:] *)
     (len - 1) + m            (* n, err := writeRecordLocked(b); return n + m *)
   else len.
+
+(* ---- CertificateRequest (optional client authentication) ----
+   A compliant server may ask for a client certificate in any handshake (TLS 1.3: CertificateRequest after
+   EncryptedExtensions, handshake_client_tls13.go:786-800 readServerCertificate stores it; TLS <= 1.2:
+   handshake_client.go doFullHandshake). A client whose Config holds no certificate answers with an empty Certificate
+   message (handshake_client_tls13.go sendClientCertificate / handshake_client.go:790-810) and goes on: the request
+   changes none of the client's decisions. [creq] = the flight carries a CertificateRequest; the reply is what the
+   client sends: None = no Certificate message, Some 0 = a Certificate message with an empty chain. *)
+Definition client_run10q (fixed : bool) (e : env) (v : client_view) (ks : kshape) (fl : flight) (creq : bool) : outcome :=
+  client_run10 fixed e v ks fl.
+Definition client_cert_reply (creq : bool) : option N := if creq then Some 0 else None.
